@@ -29,15 +29,27 @@ def translate_symbols(md, mapping):
                 tape_symbols="".join(sorted(t(c) for c in md["tape_symbols"])), blank=t(md["blank"]), table=table)
 
 
-def rand_table(rng, k=1, nondet=False, names=None, profile=None, twin=None, nasty=None):
+def rand_table(rng, k=1, nondet=False, names=None, profile=None, twin=None, nasty=None, empty=False):
     """Random machine description (dict with states/finals/symbols/table...).  twin: the second alternative of an entry
     repeats the first one's writes and moves with another target state (two branches that differ in the state only);
-    nasty: tape symbols are control characters and punctuation (newline, tab, backslash, ...)."""
+    nasty: tape symbols are control characters and punctuation (newline, tab, backslash, ...);
+    empty: one random entry of the table gets an EMPTY list of alternatives (the constructor accepts it; the run treats it
+    like a missing entry) - None = in one table out of ten.  Such a table has no DTM view (dtm_def needs one alternative);
+    its NTM view has the empty set there.  Off by default: callers that build a DTM from the table must not ask for it."""
     if twin is None:
         twin = nondet and rng.random() < 0.3
     if nasty is None:
         nasty = rng.random() < 0.15
+    if empty is None:
+        empty = rng.random() < 0.10
     md = _rand_table(rng, k, nondet, names, profile, twin)
+    if empty:
+        entries = [(q, key) for q, row in md["table"].items() for key in row]
+        if entries:
+            # mostly an entry the run meets early: a row of the initial state
+            first = [e for e in entries if e[0] == md["initial"]]
+            q, key = rng.choice(first if first and rng.random() < 0.6 else entries)
+            md["table"][q][key] = []
     if nasty:
         pool = NASTY[:]
         rng.shuffle(pool)
@@ -310,11 +322,9 @@ def o_mntm(md, word, budget):
         c = queue.popleft()
         seen.append(c)
         s = o_succ(md, c)
-        if s is None:
+        if not s:          # no entry, or an entry with no alternative (`if not possible_transitions`)
             if c[0] in md["finals"]:
                 return seen, "accept"
-        elif not s:
-            return seen, "indexerror"
         else:
             queue.extend(s[1:])
             queue.append(s[0])
